@@ -6,16 +6,17 @@
 // contracts state value `v()` AND result precision `nl()` (= bits_precision / 64) -- C15 "results have the documented precision".
 //
 // Layer 1, ASSUMED (`stub`):
-//   fold_limbs, map_limbs (`let &a = ..`: Verus "ref patterns" unsupported; higher-order contracts over `f.requires` / `f.ensures`),
 //   From<u64 | u128> (go through `impl From<u64 | u128> for Uint<LIMBS>`, whose `debug_assert!(LIMBS >= ..)` needs a `requires`
-//   that a trait-impl method cannot carry), div_rem_vartime (see LIMITATION 1),
+//   that a trait-impl method cannot carry),
 //   safegcd::boxed::gcd (Bernstein-Yang core), Integer::is_odd (provided trait method, hand-declared).
 //   Library (assume_specification): `<BoxedUint as Clone>::clone` (derived), `<[T]>::clone_from_slice`, `Box<T>::as_ref / as_mut`, `Vec<T>: From<Box<[T]>>`,
 //   `Box<[T]>: From<&[T]>`, `core::cmp::max`, `Option<&T>::copied`, `<slice::Iter as Iterator>::fold`, `<Ordering as PartialEq>::eq`
 //   (+ `Vec::into_boxed_slice`, `Box<[T]>: From<Vec<T>>` in l7_boxed_div.rs). Model of subtle: ConditionallySelectable (u64, u32, Ordering),
 //   ConstantTimeGreater / ConstantTimeLess (u32), ConstantTimeEq for u32, BitAndAssign for Choice (verified against BitAnd). Model of core:
 //   `&T: AsRef<U>` forwards (`obeys_as_ref_spec`).
-// Layer 1, PROVED (`body`): limbs_for_precision, zero_with_precision, is_zero (fold + closure), From<Vec<Limb>> (l7_boxed_div.rs), From<Box<[Limb]>>,
+// Layer 1, PROVED (`body`): fold_limbs, map_limbs (higher-order contracts over `f.requires` / `f.ensures`; `let &a = EXPR;` rewritten to
+//   `let a = *EXPR;` by a `//@@ subst`, Verus has no "ref patterns"), div_rem_vartime (Knuth slice routine of l7_boxed_div.rs; LIMITATION 1 lifted by the
+//   `//@@ subst` next to it), limbs_for_precision, zero_with_precision, is_zero (fold + closure), From<Vec<Limb>> (l7_boxed_div.rs), From<Box<[Limb]>>,
 //   From<&[Limb]>, From<Limb>, adc, sbb (closures over fold_limbs; sbb is total), bitand (map_limbs), adc_assign, sbb_assign (rhs: impl AsRef<[Limb]>,
 //   under `asref_ok(&rhs)`), shl1_assign, shr1_assign, shl_vartime_into, shr_vartime_into (dest pre-zeroized = precondition), conditional_set_zero,
 //   overflowing_shl_assign, overflowing_shr_assign (constant-time ladder over the two; `ct_assign` and `Zero::set_zero` are the second methods of trait
@@ -44,7 +45,9 @@
 // LIMITATION 1 (Verus): `&mut x.limbs[..k]` -- range IndexMut through a `Box<[Limb]>` place -- yields an unconstrained slice (the encoder types
 //   the receiver `MUTREF (BOX ..)`, vstd's slice index_mut axiom is guarded by `MUTREF $slice`). The multi-limb arms of div_rem_vartime /
 //   rem_vartime (`div_rem_vartime_in_place(&mut quo.limbs, &mut rem.limbs[..yc])`) are therefore unverifiable: div_rem_vartime is a stub with the
-//   general contract (sqrt_vartime needs it); rem_vartime is a body under the extra precondition `rhs < 2^64` (divisor VALUE fits one limb: the
+//   general contract (sqrt_vartime needs it) [2026-10-04: now a body -- the reborrow `&mut Box<[Limb]> -> &mut [Limb]` is named by a one-statement
+//   `//@@ subst` (`{ let rem_limbs__: &mut [Limb] = &mut rem.limbs; div_rem_vartime_in_place(&mut quo.limbs, &mut rem_limbs__[..yc]); }`), which Verus models];
+//   rem_vartime is (still) a body under the extra precondition `rhs < 2^64` (divisor VALUE fits one limb: the
 //   `1 =>` fast path; the other arms are dead code under it) -- this pins the result precision of the fast path (rhs.bits_precision()).
 // Lemmas copied from private lemmas of other units (request: make them `pub` there): the whole Newton / Hast development of l4_sqrt.rs,
 //   lemma_cond_sub / lemma_cond_add / lemma_mms_core of l4_modular.rs, lemma_bs_val_split of l7_boxed_slices.rs.
@@ -57,6 +60,7 @@ use vstd::std_specs::bits::*;
 use vstd::std_specs::cmp::*;
 use vstd::std_specs::iter::IteratorSpec;
 use core::cmp::{Ordering, max};
+use core::cmp;   // fold_limbs / map_limbs call `cmp::max`
 use core::ops::{BitAnd, Div, Rem, Shl, Shr, ShlAssign, ShrAssign};
 use crate::speclib::*;
 use crate::speclib_bits::*;
@@ -1170,14 +1174,16 @@ proof fn lemma_sbb_chain(ea: Seq<Limb>, eb: Seq<Limb>, r: Seq<Limb>, cs: Seq<Lim
         assert(x * pk - bo * (B() * pk) == a * pk - b * pk - bin * pk) by (nonlinear_arith) requires x - bo * B() == a - b - bin;
     }
 }
-//@@ fn src/uint/boxed.rs | impl BoxedUint | fold_limbs | stub | props C04 C11 C15
+// Verus does not support reference patterns in `let` ("ref patterns"): the four statements `let &a = EXPR;` / `let &b = EXPR;` of fold_limbs / map_limbs
+// (EXPR: &Limb, Limb is Copy) are rewritten textually into the equivalent `let a = *EXPR;` / `let b = *EXPR;`.  Nothing else changes.
+//@@ subst let &(a|b) = (.+);\s*$ => let \1 = *\2;
+//@@ fn src/uint/boxed.rs | impl BoxedUint | fold_limbs | body | props C04 C11 C15
 impl BoxedUint {
-#[verifier::external_body]
 pub fn fold_limbs<F>(lhs: &Self, rhs: &Self, mut carry: Limb, f: F) -> (ret__: (Self, Limb))
 where
         F: Fn(Limb, Limb, Limb) -> (Limb, Limb),
 //@+
-    // ASSUMED (not a body: `let &a = lhs.limbs.get(i).unwrap_or(&Limb::ZERO);` -- Verus: "ref patterns" unsupported). Read off the code:
+    // Read off the code:
     // n = max(len, len) rounds over the zero-extended operands, round k maps (a_k, b_k, c_k) to (limb_k, c_{k+1}) by `f`, c_0 = carry;
     // the collected limbs go through `From<Vec<Limb>>` (an empty vector becomes the one-limb zero).
     requires forall|a: Limb, b: Limb, c: Limb| #[trigger] f.requires((a, b, c))
@@ -1189,18 +1195,57 @@ where
     })
 //@-
 {
-    unimplemented!()
-}
+//@+
+    let ghost n = max_nat(lhs.limbs@.len(), rhs.limbs@.len());
+    let ghost ea = zext(lhs.limbs@, n); let ghost eb = zext(rhs.limbs@, n);
+    let ghost carry0 = carry;
+    let ghost mut cs: Seq<Limb> = seq![carry];
+//@-
+        let nlimbs = cmp::max(lhs.nlimbs(), rhs.nlimbs());
+        let mut limbs = Vec::with_capacity(nlimbs);
+        for i in 0..nlimbs
+//@+
+    invariant nlimbs == n, VERUS_ghost_iter.iter.end == n, limbs@.len() == VERUS_ghost_iter.index@,
+        n == max_nat(lhs.limbs@.len(), rhs.limbs@.len()), ea == zext(lhs.limbs@, n), eb == zext(rhs.limbs@, n),
+        cs.len() == limbs@.len() + 1, cs[0] == carry0, cs[limbs@.len() as int] == carry,
+        forall|a: Limb, b: Limb, c: Limb| #[trigger] f.requires((a, b, c)),
+        forall|k: int| 1 <= k <= limbs@.len() ==> f.ensures((ea[k - 1], eb[k - 1], cs[k - 1]), (limbs@[k - 1], #[trigger] cs[k])),
+//@-
+{
+//@+
+    let ghost l0 = limbs@; let ghost cs0 = cs;
+//@-
+            let a = *lhs.limbs.get(i).unwrap_or(&Limb::ZERO);
+            let b = *rhs.limbs.get(i).unwrap_or(&Limb::ZERO);
+//@+
+    proof { assert(a == ea[i as int]); assert(b == eb[i as int]); }
+//@-
+            let (limb, c) = f(a, b, carry);
+            limbs.push(limb);
+            carry = c;
+//@+
+    proof {
+        cs = cs0.push(c);
+        assert forall|k: int| 1 <= k <= limbs@.len() implies f.ensures((ea[k - 1], eb[k - 1], cs[k - 1]), (limbs@[k - 1], #[trigger] cs[k])) by {
+            if k <= l0.len() { assert(cs[k] == cs0[k] && cs[k - 1] == cs0[k - 1] && limbs@[k - 1] == l0[k - 1]); }
+        }
+    }
+//@-
+        }
+//@+
+    proof { assert(limbs@.len() == n); assert(cs.len() == n + 1); }
+//@-
+        (limbs.into(), carry)
+    }
 }
 //@@ end
-//@@ fn src/uint/boxed.rs | impl BoxedUint | map_limbs | stub | props C05 C11 C15
+//@@ fn src/uint/boxed.rs | impl BoxedUint | map_limbs | body | props C05 C11 C15
 impl BoxedUint {
-#[verifier::external_body]
 pub fn map_limbs<F>(lhs: &Self, rhs: &Self, f: F) -> (ret__: Self)
 where
         F: Fn(Limb, Limb) -> Limb,
 //@+
-    // ASSUMED (same `let &a = ..` ref patterns as fold_limbs): limb k of the result is f(a_k, b_k) over the zero-extended operands
+    // limb k of the result is f(a_k, b_k) over the zero-extended operands
     requires forall|a: Limb, b: Limb| #[trigger] f.requires((a, b))
     ensures ({
         let n = max_nat(lhs.limbs@.len(), rhs.limbs@.len());
@@ -1209,10 +1254,45 @@ where
     })
 //@-
 {
-    unimplemented!()
-}
+//@+
+    let ghost n = max_nat(lhs.limbs@.len(), rhs.limbs@.len());
+    let ghost ea = zext(lhs.limbs@, n); let ghost eb = zext(rhs.limbs@, n);
+//@-
+        let nlimbs = cmp::max(lhs.nlimbs(), rhs.nlimbs());
+        let mut limbs = Vec::with_capacity(nlimbs);
+        for i in 0..nlimbs
+//@+
+    invariant nlimbs == n, VERUS_ghost_iter.iter.end == n, limbs@.len() == VERUS_ghost_iter.index@,
+        n == max_nat(lhs.limbs@.len(), rhs.limbs@.len()), ea == zext(lhs.limbs@, n), eb == zext(rhs.limbs@, n),
+        forall|a: Limb, b: Limb| #[trigger] f.requires((a, b)),
+        forall|k: int| 0 <= k < limbs@.len() ==> f.ensures((ea[k], eb[k]), #[trigger] limbs@[k]),
+//@-
+{
+//@+
+    let ghost l0 = limbs@;
+//@-
+            let a = *lhs.limbs.get(i).unwrap_or(&Limb::ZERO);
+            let b = *rhs.limbs.get(i).unwrap_or(&Limb::ZERO);
+//@+
+    proof { assert(a == ea[i as int]); assert(b == eb[i as int]); }
+//@-
+            limbs.push(f(a, b));
+//@+
+    proof {
+        assert forall|k: int| 0 <= k < limbs@.len() implies f.ensures((ea[k], eb[k]), #[trigger] limbs@[k]) by {
+            if k < l0.len() { assert(limbs@[k] == l0[k]); }
+        }
+    }
+//@-
+        }
+//@+
+    proof { assert(limbs@.len() == n); }
+//@-
+        limbs.into()
+    }
 }
 //@@ end
+//@@ subst-clear
 //@@ fn src/uint/boxed/add.rs | impl BoxedUint | adc | body | props C04 C11 C15
 impl BoxedUint {
 pub fn adc(&self, rhs: &Self, carry: Limb) -> (ret__: (Self, Limb))
@@ -1812,9 +1892,32 @@ pub fn div_rem(&self, rhs: &NonZero<Self>) -> (ret__: (Self, Self))
     }
 }
 //@@ end
-//@@ fn src/uint/boxed/div.rs | impl BoxedUint | div_rem_vartime | stub | props C02 C11 C15
+/// a divisor of `bits` significant bits occupies yc = ceil(bits / 64) limbs: its value is that of the low yc limbs, limb yc-1 is non-zero
+/// (what `div_rem_vartime_in_place` requires of `&mut rem.limbs[..yc]`), the limbs above contribute nothing
+proof fn lemma_div_vt_yc(s: Seq<Limb>, n: nat, bits: nat, yc: nat)
+    requires n >= 1, 1 <= bits <= 64 * n, 64 * (yc - 1) < bits <= 64 * yc, val(s, n) < p2(bits), val(s, n) >= p2((bits - 1) as nat)
+    ensures 1 <= yc <= n, val(s, yc) == val(s, n), s[yc - 1].0 != 0, tv(s, yc, n) == 0, val(s, n) < bp(yc)
+{
+    lemma_bp_pow2(yc); lemma_bp_pow2((yc - 1) as nat);
+    if bits < 64 * yc { lemma_pow2_strictly_increases(bits, 64 * yc); }
+    if 64 * (yc - 1) < bits - 1 { lemma_pow2_strictly_increases((64 * (yc - 1)) as nat, (bits - 1) as nat); }
+    assert(bp((yc - 1) as nat) <= val(s, n) < bp(yc));
+    lemma_val_mod(s, yc, n);
+    lemma_val_bound(s, n);
+    lemma_small_mod(val(s, n) as nat, bp(yc) as nat);
+    lemma_val_step(s, (yc - 1) as nat);
+    lemma_val_bound(s, (yc - 1) as nat);
+    let top = s[yc - 1].0 as int; let pw = bp((yc - 1) as nat);
+    assert(val(s, yc) == val(s, (yc - 1) as nat) + top * pw);
+    if top == 0 { assert(top * pw == 0) by (nonlinear_arith) requires top == 0; }
+}
+// Verus leaves a range `IndexMut` taken directly on a `Box<[Limb]>` place unconstrained (`&mut rem.limbs[..yc]`: even the length of the slice is unknown,
+// and `rem.limbs` is havocked afterwards); the same expression on a `&mut [Limb]` is modelled.  The auto-deref `&mut Box<[Limb]> -> &mut [Limb]` that the
+// compiler inserts is therefore made explicit by naming the reborrowed slice (one statement of div_rem_vartime; same calls, same arguments, same order of
+// the two index/borrow operations that can panic -- there is only one, `[..yc]`):
+//@@ subst ^(\s*)div_rem_vartime_in_place\(&mut quo\.limbs, &mut rem\.limbs\[\.\.yc\]\);\s*$ => \1{ let rem_limbs__: &mut [Limb] = &mut rem.limbs; div_rem_vartime_in_place(&mut quo.limbs, &mut rem_limbs__[..yc]); }
+//@@ fn src/uint/boxed/div.rs | impl BoxedUint | div_rem_vartime | body | props C02 C11 C15
 impl BoxedUint {
-#[verifier::external_body]
 pub fn div_rem_vartime(&self, rhs: &NonZero<Self>) -> (ret__: (Self, Self))
 //@+
     requires self.wf(), rhs.0.wf(), rhs.0.v() != 0
@@ -1823,10 +1926,67 @@ pub fn div_rem_vartime(&self, rhs: &NonZero<Self>) -> (ret__: (Self, Self))
         ret__.0.v() == self.v() / rhs.0.v(), ret__.1.v() == self.v() % rhs.0.v()
 //@-
 {
-    unimplemented!()
-}
+//@+
+    let ghost d = rhs.0; let ghost n = rhs.0.nl(); let ghost dv = rhs.0.v(); let ghost sv = self.v(); let ghost ds = rhs.0.limbs@;
+    proof {
+        lemma_rng(&d); lemma_rng(self); lemma_bp1(); lemma_pow2_64(); lemma_nlimbs_for(n);
+        // yc = ceil(bits / 64) for the bit length reported by bits_vartime()
+        assert forall|b: u32| b != 0 && b as int <= 64 * n && dv < p2(b as nat) && dv >= #[trigger] p2((b - 1) as nat) implies ({
+            let y = ((b as int + 63) / 64) as nat;
+            1 <= y <= n && val(ds, y) == dv && ds[y - 1].0 != 0 && tv(ds, y, n) == 0 && dv < bp(y) }) by {
+            lemma_div_vt_yc(ds, n, b as nat, ((b as int + 63) / 64) as nat);
+        }
+    }
+//@-
+        let yc = rhs.0.bits_vartime().div_ceil(Limb::BITS) as usize;
+//@+
+    proof {
+        assert(1 <= yc <= n && val(ds, yc as nat) == dv && ds[yc - 1].0 != 0 && tv(ds, yc as nat, n) == 0 && dv < bp(yc as nat));
+    }
+//@-
+        match yc {
+            0 => panic!("zero divisor"),
+            1 => {
+//@+
+    proof { lemma_val_single(ds, 1); }
+//@-
+                // Perform limb division
+                let (quo, rem_limb) =
+                    self.div_rem_limb(rhs.0.limbs[0].to_nz().expect("zero divisor"));
+                let mut rem = Self::zero_with_precision(rhs.bits_precision());
+                rem.limbs[0] = rem_limb;
+//@+
+    proof { lemma_val_single(rem.limbs@, rem.limbs@.len()); }
+//@-
+                (quo, rem)
+            }
+            _ => {
+                let mut quo = self.clone();
+                let mut rem = rhs.0.clone();
+//@+
+    proof {
+        assert forall|t: Seq<Limb>| t =~= ds.subrange(0, yc as int) implies #[trigger] val(t, yc as nat) == dv by { lemma_val_ext(t, ds, yc as nat); }
+    }
+//@-
+                { let rem_limbs__: &mut [Limb] = &mut rem.limbs; div_rem_vartime_in_place(&mut quo.limbs, &mut rem_limbs__[..yc]); }
+//@+
+    proof {
+        let r1 = rem.limbs@;
+        assert(r1.len() == n);
+        assert(forall|k: int| yc <= k < n ==> r1[k] == ds[k]);
+        lemma_tv_ext(r1, ds, yc as nat, n);
+        lemma_val_ext(r1.subrange(0, yc as int), r1, yc as nat);
+        assert(val(r1, n) == val(r1, yc as nat) + tv(r1, yc as nat, n));
+        assert(quo.limbs@.len() == self.nl());
+    }
+//@-
+                (quo, rem)
+            }
+        }
+    }
 }
 //@@ end
+//@@ subst-clear
 //@@ fn src/uint/boxed/div.rs | impl BoxedUint | wrapping_div_vartime | body | props C02 C11 C15
 impl BoxedUint {
 pub fn wrapping_div_vartime(&self, rhs: &NonZero<Self>) -> (ret__: Self)
@@ -2542,6 +2702,9 @@ impl From<u64> for BoxedUint {
 #[verifier::external_body]
 fn from(n: u64) -> (ret__: Self)
 //@+
+    // ASSUMED: `U64::from(n).into()` goes through `impl<const LIMBS: usize> From<u64> for Uint<LIMBS>`, whose `debug_assert!(LIMBS >= 8 / Limb::BYTES)`
+    // (checked by Verus) needs `requires LIMBS >= 1`; a method of a trait impl cannot carry `requires` and vstd's `FromSpecImpl` has no `from_req`.
+    // (`from_u64` and `From<Uint<LIMBS>> for BoxedUint` are proved.)
     ensures ret__.nl() == 1, ret__.v() == n
 //@-
 {
@@ -2554,6 +2717,7 @@ impl From<u128> for BoxedUint {
 #[verifier::external_body]
 fn from(n: u128) -> (ret__: Self)
 //@+
+    // ASSUMED: as From<u64> (`debug_assert!(LIMBS >= 16 / Limb::BYTES)` in `impl From<u128> for Uint<LIMBS>`)
     ensures ret__.nl() == 2, ret__.v() == n
 //@-
 {
